@@ -23,7 +23,10 @@ Inductive op :=
 | DCp (shape : list nat) (spec : rspec)
 | DParafac2 (slices : list (nat * nat)) (r : nat)
 | DTrAls (shape : list nat) (spec : rspec)
-| DCmtf (shape3 : list nat) (m : nat) (spec : rspec).
+| DCmtf (shape3 : list nat) (m : nat) (spec : rspec)
+(* control flow of the CP drivers w.r.t. normalisation; the decisions are the implementation's (answer tape) *)
+| DNorm (d : driver) (nf tol_set : bool) (ik : init_kind) (n_modes : nat) (fixed : list nat) (n_iter : nat)
+        (decisions : list (bool * bool)) (obs_sweeps : bool).
 
 Definition is_frac (s : rspec) : bool := match s with RFrac _ => true | _ => false end.
 Definition frac_of (s : rspec) : Q := match s with RFrac q => q | _ => 0%Q end.
@@ -60,6 +63,13 @@ Definition run (o : op) : res (list (list nat)) :=
   | DParafac2 slices r => parafac2 slices r
   | DTrAls shape spec => one (tensor_ring_als shape spec) tt_observe
   | DCmtf shape3 m spec => cmtf shape3 m spec
+  | DNorm d nf tol_set ik n_modes fixed n decisions obs_sweeps =>
+      (* observables: number of executed sweeps (when the implementation reports it), "the returned state is the
+         output of cp_normalize", "cp_normalize was applied at all" *)
+      let t := trace_run d nf tol_set ik n_modes fixed n decisions in
+      let m := length (modes_list d n_modes fixed) in
+      Ok [[if obs_sweeps then (if m =? 0 then 0 else length (updates t) / m) else 0];
+          [if ends_normalised t then 1 else 0]; [if any_normalise t then 1 else 0]]
   end.
 
 Fixpoint shapes_eqb (a b : list (list nat)) : bool :=
